@@ -201,8 +201,19 @@ def try_to_save_module(hashed_grammar, file_io, module, lines, pickling=True, ca
                 'Tried to save a file to %s, but got permission denied.' % path,
                 Warning
             )
+        except OSError as e:
+            # E.g. a full disk or a cache directory that vanished.
+            warnings.warn(
+                'Tried to save a file to %s, but got an error: %s' % (path, e),
+                Warning
+            )
         else:
-            _remove_cache_and_update_lock(cache_path=cache_path)
+            try:
+                _remove_cache_and_update_lock(cache_path=cache_path)
+            except OSError:
+                # The clean up is only housekeeping (and races with other
+                # processes doing the same), it must never break parsing.
+                pass
 
 
 def _save_to_file_system(hashed_grammar, path, item, cache_path=None):
